@@ -60,7 +60,7 @@ func init() {
 		ID:   "C02",
 		Rule: "random typed trees (no failing variables; operators may fail, e.g. division by zero behind guards) x ALL 16 optimisation subsets set programmatically and again by `;;;;` directive comments x cost maps (integers incl. negative, zero, 2^40) x stateless declarations x bindings of all variables: (a) all configurations that return a value return the same one, (b) with Reordering off every configuration returns the unoptimised value when that evaluation succeeds, (c) directive and programmatic configuration give the same Dump and result, (d) Go's optimised tree equals the model's `optimize` and its Eval equals `sem` of it; non-trivial = at least two configurations returned a value; distinct = distinct (source, costs, binding)",
 		Assumptions: []string{"cost maps are integer-valued (exact in float64); NaN/Inf costs are covered by the theorem for arbitrary permutations, not by the correspondence"},
-		Behav:       []int{5, 2}, Fidelity: []int{1, 3, 4, 8, 9}, Ignore: []int{6, 7, 50}, CodeText: evalCodeText,
+		Behav:       []int{5, 2}, Fidelity: []int{1, 3, 4, 8, 9, 10}, Ignore: []int{6, 7, 50}, CodeText: evalCodeText,
 		Gen: func(c *RunCtx) []*Batch {
 			r := c.R
 			b := evalBatch("C02", "optimise")
@@ -139,7 +139,7 @@ func init() {
 		ID:   "C10",
 		Rule: "trees rich in constant sub-expressions mixing built-in operators, registered operators declared stateless, registered operators not declared (incl. zero-operand ones) and names declared but not registered, failing constant sub-expressions (division by zero, bad version strings) behind and/or/if guards, x optimisation subsets x 1..5 repeated evaluations, many configurations built in one process; the operators invoked with a nil context during Compile are compared with the model's constant-folding log, Go's optimised tree with the model's, and every evaluation's operator calls with `sem` (so an undeclared operator must be called again in every evaluation); non-trivial = a registered operator occurs; distinct = distinct (source, config)",
 		Assumptions: []string{"registered operators record their own invocations; a nil *Ctx marks a compile-time invocation"},
-		Behav:       []int{9, 5, 2}, Fidelity: []int{1, 3, 4, 8}, Ignore: []int{6, 7, 50}, CodeText: evalCodeText,
+		Behav:       []int{9, 5, 2}, Fidelity: []int{1, 3, 4, 8, 10}, Ignore: []int{6, 7, 50}, CodeText: evalCodeText,
 		Gen: func(c *RunCtx) []*Batch {
 			r := c.R
 			b := evalBatch("C10", "folding")
@@ -211,7 +211,7 @@ func init() {
 		ID:   "C16",
 		Rule: "and/or nodes with 2..127 operands, many of equal estimated cost (so a non-stable sort is visible above 12 elements), nested under other operators and `if`, x cost maps (per-name, `variable`/`operator` defaults, negative, zero, 2^40) and pairs of cost maps differing in one entry, Reordering alone and with the other optimisations; Go's optimised tree (operand order of every node) is compared with the model's stable cost-directed `reorder`; non-trivial = some and/or node has two operands of equal cost or the order changed; distinct = distinct (source, costs)",
 		Assumptions: []string{"integer-valued costs (exact in float64)"},
-		Behav:       []int{1, 5, 2}, Fidelity: []int{3, 4, 8, 9}, Ignore: []int{6, 7, 50}, CodeText: evalCodeText,
+		Behav:       []int{1, 5, 2}, Fidelity: []int{3, 4, 8, 9, 10}, Ignore: []int{6, 7, 50}, CodeText: evalCodeText,
 		Gen: func(c *RunCtx) []*Batch {
 			r := c.R
 			b := evalBatch("C16", "reorder")
